@@ -27,7 +27,7 @@ func init() {
 		return o
 	}
 	checks["C01"] = func(run *report.Run) error {
-		run.Rule = "route tables drawn from the template grammar (literals, {v}, {v:re}, {v}suffix, tail wildcard, :verb; Consumes/Produces/If/AllowedMethodsWithoutContentType), requests derived from a route's template then mutated (DESIGN §5); both routers; a case is non-trivial when some WebService root matched the URL; distinct = distinct (table, request) lines"
+		run.Rule = "route tables drawn from the template grammar (literals, {v}, {v:re}, {v}suffix, tail wildcard, :verb; Consumes/Produces/If/AllowedMethodsWithoutContentType), requests derived from a route's template then mutated (DESIGN §5); both routers; half of the tables are declared with RouteBuilder values that are used again for the next route of their WebService (Method, Path, Operation, Consumes, Produces, To set anew; also for a route added after registration); a case is non-trivial when some WebService root matched the URL; distinct = distinct (table, request) lines"
 		run.Trusted = []string{"Go regexp modelled by a derivative matcher (CurlyRouter) and by the closed form of DESIGN 4.2 (RouterJSR311)", "sort.Sort is insertion sort for n ≤ 12"}
 		run.Assumptions = []string{"templates inside the grammar of the quantifier and ids that identify (checked per table by the driver: Config.wfTemplates, Spec.idsDistinct, rootsRead)", "If-conditions are pure functions of the request"}
 		n := sizes(run, 150, 3000)
@@ -43,6 +43,7 @@ func init() {
 		}); err != nil {
 			return err
 		}
+		run.Extra["routes_declared_with_a_reused_RouteBuilder"] = routing.Reused
 		// "the route that filters and the handler see as the selected route is the one whose function
 		// runs" while other requests are being routed: batches of requests to different routes held
 		// together after routing (at the first container filter) and released; the stage log (which
